@@ -1878,3 +1878,9 @@ REPLAYS = {name: replay_dispatch for name in list(_obligation_table("quick")) + 
 def obligations(tier):
     mult = 1 if tier == "quick" else 2
     return [Ob(name, fn, desc, min(840, to * mult)) for name, (fn, desc, to) in _obligation_table(tier).items()]
+
+
+# ---- additions (start-date-derived state, generic-point fallback) ----
+BOUNDS["start-date-derived state"] = "O3-epoch runs the real SpecialPerturbations constructor once per start date; replays compare start dates 6 h before a calendar seam (new year before/after a leap year, leap day, 1 March, month end, midnight) with start dates after it"
+ASSUMPTIONS.append("whatever the perturbed-dynamics code derives from an epoch (calendar fields, a Julian date rebuilt from calendar fields, extra arguments of _getRotationMatrix) is a memoised uninterpreted function of that epoch: state derived from the start date and used at a later epoch shows up as a dependence on the split")
+ASSUMPTIONS.append("a path on which the analysed code raises only because of the proxies (conversion to a C double) is not passed: a generic point of the path (times with a fractional part) is run on the real code against the independent reference; only a reproduced deviation is reported, anything else is a harness error")
